@@ -224,6 +224,9 @@ func (g *progGen) expr(t ty, depth int, sc *scope) MalType {
 		case 3:
 			return call1("empty?", g.expr(tSeq, depth-1, sc))
 		case 4:
+			if r.chance(1, 2) {
+				return call1(r.pick([]string{"list?", "nil?", "sequential?"}), g.expr(tSeq, depth-1, sc)) // () is a list, not nil
+			}
 			return call1("nil?", g.expr(tAny, depth-1, sc))
 		default:
 			return call1("=", g.expr(tSeq, depth-1, sc), g.expr(tSeq, depth-1, sc))
@@ -237,6 +240,10 @@ func (g *progGen) expr(t ty, depth int, sc *scope) MalType {
 		case 2:
 			return call1("concat", g.expr(tSeq, depth-1, sc), g.expr(tSeq, depth-1, sc))
 		case 3:
+			if r.chance(1, 4) {
+				// the rest-parameter list of each call escapes: every call has its own
+				return call1("map", ls(sy("fn"), vc(sy("&"), sy("more")), sy("more")), g.expr(tSeq, depth-1, sc))
+			}
 			p := r.pick(varNames)
 			return call1("map", ls(sy("fn"), vc(sy(p)), g.expr(tInt, depth-2, sc.withVar(p, tInt))), g.expr(tSeq, depth-1, sc))
 		case 4:
@@ -350,6 +357,9 @@ func (g *progGen) faulty(depth int, sc *scope) MalType {
 		return call1("+", 1, "s") // builtin domain error
 	case 6:
 		return ls(sy("undefined-fn"), call1("trace!", g.intLit()), ls(sy("def"), sy("touched"), 1)) // unbound operator: no operand is evaluated
+	case 7:
+		// special forms failing with a plain error, in tail position of another form
+		return []MalType{call1("let", 5, 1), ls(sy("if"), true, call1("let", 5, 1)), ls(sy("do"), 1, call1("let", vc(sy("a")), 1))}[g.r.intn(3)]
 	default:
 		return call1("let", vc(sy("a")), 1) // odd bindings
 	}
